@@ -432,6 +432,10 @@ func (c *comp) Gen(rng *rand.Rand, idx int, tier string, targeted bool) hlib.His
 			h.Ops = append(h.Ops, []int64{2, int64(2 + rng.Intn(5)), hlib.Pick(rng, 1, 700, 4096, 40000, 100000)})
 			continue
 		}
+		if rng.Intn(40) == 0 {
+			h.Ops = append(h.Ops, []int64{3, hlib.Pick(rng, 3, 20, 70, 70, 130)})
+			continue
+		}
 		mode := hlib.Pick(rng, 0, 0, 0, 0, 1, 2, 3, 4, 5, 6, 6, 7, 8, 9)
 		if targeted {
 			mode = hlib.Pick(rng, 0, 1, 2, 3, 4, 5, 6, 6, 6, 7, 8, 8, 9)
@@ -640,6 +644,15 @@ func (c *comp) Run(h *hlib.History) ([]hlib.Mon, bool) {
 			if problem != "" {
 				hit("%d responses of %d bytes relayed at the same time: %s", op[1], op[2], problem)
 			}
+		case 3:
+			if len(op) != 2 || op[1] < 2 || op[1] > 200 {
+				return nil, false
+			}
+			heads, problem := streamsTogether(int(op[1]))
+			h.Obs = append(h.Obs, []int64{int64(heads)})
+			if problem != "" {
+				hit("%d streamed exchanges with one backend open at the same time: %s", op[1], problem)
+			}
 		default:
 			return nil, false
 		}
@@ -673,6 +686,75 @@ func (s *slowWriter) Write(p []byte) (int, error) {
 		<-s.gate
 	})
 	return s.buf.Write(p)
+}
+
+// headWriter reports when the response head (or the first body byte) arrives
+type headWriter struct {
+	hdr  http.Header
+	once sync.Once
+	got  chan struct{}
+}
+
+func (h *headWriter) Header() http.Header { return h.hdr }
+func (h *headWriter) WriteHeader(int)     { h.once.Do(func() { close(h.got) }) }
+func (h *headWriter) Write(p []byte) (int, error) {
+	h.once.Do(func() { close(h.got) })
+	return len(p), nil
+}
+func (h *headWriter) Flush() {}
+
+// streamsTogether opens n exchanges with ONE backend through one forwarder; the backend sends the head and the first
+// bytes of each response and then keeps the stream open (server-sent events, long polls) until all have been looked at.
+// Every client must have its response head while the others are still open: a request that waits for another one's
+// connection hangs. Returns the number of clients that received their head.
+func streamsTogether(n int) (heads int, problem string) {
+	release := make(chan struct{})
+	backend := httptest.NewServer(http.HandlerFunc(func(w http.ResponseWriter, r *http.Request) {
+		w.Header().Set("Content-Type", "text/event-stream")
+		w.WriteHeader(200)
+		_, _ = w.Write([]byte("data: hello\n\n"))
+		w.(http.Flusher).Flush()
+		select {
+		case <-release:
+		case <-r.Context().Done():
+		}
+	}))
+	defer backend.Close()
+	fwd := forward.New(true)
+	fwd.ErrorLog = log.New(io.Discard, "", 0)
+	bu, _ := url.Parse(backend.URL)
+	ws := make([]*headWriter, n)
+	var wg sync.WaitGroup
+	ctx, cancel := context.WithCancel(context.Background())
+	for i := 0; i < n; i++ {
+		ws[i] = &headWriter{hdr: http.Header{}, got: make(chan struct{})}
+		wg.Add(1)
+		go func(i int) {
+			defer wg.Done()
+			defer func() { _ = recover() }()
+			req := httptest.NewRequest(http.MethodGet, fmt.Sprintf("http://example.com/stream?id=%d", i), nil).WithContext(ctx)
+			u := *bu
+			u.Path, u.RawQuery = "/stream", req.URL.RawQuery
+			req.URL = &u
+			fwd.ServeHTTP(ws[i], req)
+		}(i)
+	}
+	deadline := time.After(4 * time.Second)
+	for i := 0; i < n; i++ {
+		select {
+		case <-ws[i].got:
+			heads++
+		case <-deadline:
+			if problem == "" {
+				problem = fmt.Sprintf("stream %d had no response head after 4 s although its backend answers at once (%d of the streams before it are open)", i, heads)
+			}
+			deadline = time.After(time.Millisecond)
+		}
+	}
+	close(release)
+	cancel()
+	wg.Wait()
+	return heads, problem
 }
 
 func relayTogether(n, size int) (intact int, problem string) {
@@ -790,6 +872,8 @@ func (c *comp) Describe(h *hlib.History) interface{} {
 			s = fmt.Sprintf("errorHandler(%s; request context %s)", catalogue[op[1]].name, []string{"live", "deadline expired", "cancelled"}[op[6]])
 		} else if op[0] == 2 && len(op) == 3 {
 			s = fmt.Sprintf("relayTogether(n=%d, %d bytes each)", op[1], op[2])
+		} else if op[0] == 3 && len(op) == 2 {
+			s = fmt.Sprintf("streamsTogether(n=%d)", op[1])
 		} else if len(op) == 6 && op[1] >= 0 && int(op[1]) < len(modeNames) {
 			s = fmt.Sprintf("exchange(%s status=%d body=%d framing=%d pieces=%d)", modeNames[op[1]], op[2], op[3], op[4], op[5])
 		}
@@ -809,6 +893,11 @@ func (c *comp) Nontrivial(h *hlib.History) string {
 			unit++
 		} else if op[0] == 2 {
 			hlib.Count("concurrent_relays", 1)
+		} else if op[0] == 3 {
+			hlib.Count("concurrent_streams", 1)
+			if len(op) == 2 && op[1] > 64 {
+				hlib.Count("concurrent_streams_over_64", 1)
+			}
 		} else if len(op) > 1 {
 			modes[op[1]] = true
 			hlib.Count("exchange_"+modeNames[op[1]], 1)
